@@ -268,6 +268,7 @@ class Actor:
         self.op = None
         self.fault = None
         self.fault_fired = False
+        self.abort_deferred = False
         self.armed_in = None  # countdown (in tokens / lines) once armed
         self.tok_calls = 0
         self.line_count = 0
@@ -280,6 +281,7 @@ class Actor:
         self.last_site = "start"
         self.preempted_inside = 0
         self.thread_ident = None
+        self.held_locks = 0
         self.returned = []
         self.gen_asts = {}
         self.blocked_on = None
@@ -322,8 +324,12 @@ def make_sim_lexer(world, actor):
                     fire = a.armed_in <= 0
                 elif f.get("at") == a.tok_calls:
                     fire = True
-                if fire:
-                    world.fire_abort(a, self, None)
+                if fire or a.abort_deferred:
+                    if a.held_locks:
+                        a.abort_deferred = True  # not inside a critical section
+                    else:
+                        a.abort_deferred = False
+                        world.fire_abort(a, self, None)
             if not a.tracing:
                 sched.yield_point(a)
             tok = base.token(self)
@@ -565,12 +571,19 @@ class World:
                 a.line_count += 1
                 f = a.fault
                 if f is not None and not a.fault_fired and f["kind"] == "line-abort":
+                    due = a.abort_deferred
                     if a.armed_in is not None:
                         a.armed_in -= 1
                         if a.armed_in <= 0:
-                            world.fire_abort(a, None, frame)
+                            due = True
                     elif f.get("at") == a.line_count:
-                        world.fire_abort(a, None, frame)
+                        due = True
+                    if due:
+                        if a.held_locks:
+                            a.abort_deferred = True  # not inside a critical section
+                        else:
+                            a.abort_deferred = False
+                            world.fire_abort(a, None, frame)
                 if yield_lines:
                     a.last_site = frame.f_code.co_name
                     sched.yield_point(a)
@@ -675,6 +688,7 @@ class OpRunner:
         if a.fault is not None and a.fault["kind"] not in ("seam-abort", "line-abort"):
             a.fault = None
         a.fault_fired = False
+        a.abort_deferred = False
         a.armed_in = None
         a.tok_calls = 0
         a.line_count = 0
